@@ -30,7 +30,7 @@ ANCHORS = [
     'classes:PaneConverter.try_convert', 'classes:PaneConverter.try_convert_struct',
     'classes:PaneConverter.try_convert_tuple',
 ]
-MIN_COUNTERS = {'quick': {'decided_accept': 3000, 'decided_reject': 3000, 'key_collision_cases': 100, 'constructor_placements': 10000}}
+MIN_COUNTERS = {'quick': {'decided_accept': 3000, 'decided_reject': 3000, 'key_collision_cases': 100, 'constructor_placements': 10000, 'aliased_node_cases': 500}}
 
 
 def check_case(ctx, sub, i, ty, T, v, cls_):
